@@ -228,3 +228,297 @@ Fixpoint run_ctl_from (fixed : bool) (s : kst) (h : list cop) : kst * list cev :
 Definition run_ctl (fixed : bool) (h : list cop) : kst := fst (run_ctl_from fixed kinit h).
 Definition ctl_events (fixed : bool) (h : list cop) : list cev := snd (run_ctl_from fixed kinit h).
 Definition is_error (s : kst) : bool := match k_err s with Some _ => true | None => false end.
+
+(* ================================================================================================
+   PART B: interleavings of producers, the worker thread and a control thread
+   ================================================================================================
+   Initial state: logging system initialised, ONE custom target open, enabled, threaded, and
+   qb_log_thread_start has returned (the worker is parked in its first sem_wait).
+   Threads (schedule entries): 0 = control thread, 1 = worker, 2 + i = producer i.
+   One micro-step = one synchronisation operation (lock, unlock, sem_post, sem_wait, sem_getvalue, join, exit) or
+   harness yield point ("log" before each log call, "ctl" before each control call, "write" inside the
+   target's logger callback) together with the thread-private code that follows it up to the next one -
+   the granularity of harness/sched_rt.c.  Code between lock and unlock runs as one step (everything it
+   touches is touched only under the lock; the harness checks that with tsan instrumentation), except that
+   sem_getvalue and the logger callback are yield points of their own.
+   qb_log_fini is only called after all producers were joined (logging concurrently with qb_log_fini is
+   outside the API's contract: it destroys the lock the producers use). *)
+
+Record msg := { m_tid : nat; m_seq : nat; m_len : Z }.
+Definition msg_total (m : msg) : Z := LOGT_REC_SIZE + m_len m + 1.     (* sizeof(struct qb_log_record) + strlen + 1 *)
+Fixpoint backlog (l : list msg) : Z := match l with [] => 0 | m :: r => msg_total m + backlog r end.
+
+Inductive holder := HMain | HWorker | HProd (i : nat).
+Inductive cerr2 := EPopEmpty                (* the worker took "the first record" of an empty list *)
+                 | ECloseDuringWrite.       (* a target's close callback ran while the worker was inside its logger *)
+
+Record shared := { lk : option holder;      (* holder of logt_wthread_lock *)
+                   q : list msg;            (* logt_print_finished_records *)
+                   mem : Z;                 (* logt_memory_used *)
+                   drop : Z;                (* logt_dropped_messages *)
+                   sem : Z;                 (* logt_print_finished *)
+                   flag : bool;             (* wthread_should_exit *)
+                   en : bool;               (* conf[t].state == ENABLED *)
+                   closed : bool;           (* conf[t].state == UNUSED *)
+                   inlog : bool }.          (* in_logger (log.c): process-wide re-entrancy guard *)
+
+Record ghost := { plog : list (msg * bool * Z);   (* every record that entered the critical section of
+                                                     qb_log_thread_log_post, oldest first: accepted?, bytes queued before *)
+                  out : list (msg * bool);        (* records taken off the list by the worker, oldest first;
+                                                     true = handed to the target's logger, false = target not enabled *)
+                  reported : list Z;              (* the numbers printed as "%d messages lost" *)
+                  guarded : list msg;             (* log calls turned away by the in_logger guard (silently) *)
+                  skipped : list msg;             (* log calls made while the target was not enabled *)
+                  closes : nat;                   (* invocations of the target's close callback *)
+                  stopped : bool;                 (* qb_log_fini returned *)
+                  err : option cerr2 }.
+
+Definition set_lk (s : shared) (x : option holder) : shared :=
+  {| lk := x; q := q s; mem := mem s; drop := drop s; sem := sem s; flag := flag s; en := en s; closed := closed s; inlog := inlog s |}.
+Definition set_q (s : shared) (x : list msg) : shared :=
+  {| lk := lk s; q := x; mem := mem s; drop := drop s; sem := sem s; flag := flag s; en := en s; closed := closed s; inlog := inlog s |}.
+Definition set_mem (s : shared) (x : Z) : shared :=
+  {| lk := lk s; q := q s; mem := x; drop := drop s; sem := sem s; flag := flag s; en := en s; closed := closed s; inlog := inlog s |}.
+Definition set_drop (s : shared) (x : Z) : shared :=
+  {| lk := lk s; q := q s; mem := mem s; drop := x; sem := sem s; flag := flag s; en := en s; closed := closed s; inlog := inlog s |}.
+Definition set_sem (s : shared) (x : Z) : shared :=
+  {| lk := lk s; q := q s; mem := mem s; drop := drop s; sem := x; flag := flag s; en := en s; closed := closed s; inlog := inlog s |}.
+Definition set_flag (s : shared) (x : bool) : shared :=
+  {| lk := lk s; q := q s; mem := mem s; drop := drop s; sem := sem s; flag := x; en := en s; closed := closed s; inlog := inlog s |}.
+Definition set_en (s : shared) (x : bool) : shared :=
+  {| lk := lk s; q := q s; mem := mem s; drop := drop s; sem := sem s; flag := flag s; en := x; closed := closed s; inlog := inlog s |}.
+Definition set_closed (s : shared) (x : bool) : shared :=
+  {| lk := lk s; q := q s; mem := mem s; drop := drop s; sem := sem s; flag := flag s; en := en s; closed := x; inlog := inlog s |}.
+Definition set_inlog (s : shared) (x : bool) : shared :=
+  {| lk := lk s; q := q s; mem := mem s; drop := drop s; sem := sem s; flag := flag s; en := en s; closed := closed s; inlog := x |}.
+
+Definition add_plog (g : ghost) (x : msg * bool * Z) : ghost :=
+  {| plog := plog g ++ [x]; out := out g; reported := reported g; guarded := guarded g; skipped := skipped g;
+     closes := closes g; stopped := stopped g; err := err g |}.
+Definition add_out (g : ghost) (x : msg * bool) : ghost :=
+  {| plog := plog g; out := out g ++ [x]; reported := reported g; guarded := guarded g; skipped := skipped g;
+     closes := closes g; stopped := stopped g; err := err g |}.
+Definition add_reported (g : ghost) (x : Z) : ghost :=
+  {| plog := plog g; out := out g; reported := reported g ++ [x]; guarded := guarded g; skipped := skipped g;
+     closes := closes g; stopped := stopped g; err := err g |}.
+Definition add_guarded (g : ghost) (x : msg) : ghost :=
+  {| plog := plog g; out := out g; reported := reported g; guarded := guarded g ++ [x]; skipped := skipped g;
+     closes := closes g; stopped := stopped g; err := err g |}.
+Definition add_skipped (g : ghost) (x : msg) : ghost :=
+  {| plog := plog g; out := out g; reported := reported g; guarded := guarded g; skipped := skipped g ++ [x];
+     closes := closes g; stopped := stopped g; err := err g |}.
+Definition set_err (g : ghost) (e : cerr2) : ghost :=
+  {| plog := plog g; out := out g; reported := reported g; guarded := guarded g; skipped := skipped g;
+     closes := closes g; stopped := stopped g; err := match err g with Some x => Some x | None => Some e end |}.
+Definition set_stopped (g : ghost) : ghost :=
+  {| plog := plog g; out := out g; reported := reported g; guarded := guarded g; skipped := skipped g;
+     closes := closes g; stopped := true; err := err g |}.
+
+Inductive ppc := PIdle                       (* at the "log" point before its next log call (finished when the program is empty) *)
+               | PLock (m : msg)             (* in qb_log_thread_log_post, about to lock *)
+               | PUnlock (m : msg) (acc : bool)
+               | PPost (m : msg).            (* record appended, about to sem_post *)
+Record prod := { p_prog : list Z;            (* lengths of the messages still to log *)
+                 p_seq : nat;                (* number of log calls begun *)
+                 p_pc : ppc }.
+
+Inductive wpc := WWait | WLock | WGetval | WWrite (m : msg) | WUnlock | WUnlockExit | WExit | WDone.
+
+Inductive mop := MCtl (b : bool)             (* qb_log_ctl(t, QB_LOG_CONF_ENABLED, b) *)
+               | MClose                      (* qb_log_custom_close(t) *)
+               | MStop.                      (* join every producer, then qb_log_fini *)
+Inductive mpc := MIdle | MCtlLock (b : bool) | MCloseLock | MUnlock
+               | MJoin (k : nat) | MStopLock | MStopUnlock | MStopPost | MStopJoin.
+
+Inductive clabel := LbLog | LbCtl | LbLock | LbUnlock | LbPost | LbWait | LbGetval (v : Z) | LbWrite | LbExit
+                  | LbJoinProd (k : nat) | LbJoinWorker.
+
+Record cstate := { c_sh : shared; c_gh : ghost; c_w : wpc; c_mprog : list mop; c_m : mpc; c_prods : list prod }.
+
+Definition cinit (mprog : list mop) (progs : list (list Z)) : cstate :=
+  {| c_sh := {| lk := None; q := []; mem := 0; drop := 0; sem := 0; flag := false; en := true; closed := false; inlog := false |};
+     c_gh := {| plog := []; out := []; reported := []; guarded := []; skipped := []; closes := 0; stopped := false; err := None |};
+     c_w := WWait; c_mprog := mprog; c_m := MIdle;
+     c_prods := map (fun p => {| p_prog := p; p_seq := 0; p_pc := PIdle |}) progs |}.
+
+Definition lock_free (s : shared) : bool := match lk s with None => true | Some _ => false end.
+Definition at_ppc (p : prod) (c : ppc) : prod := {| p_prog := p_prog p; p_seq := p_seq p; p_pc := c |}.
+Definition prod_done (p : prod) : bool :=
+  match p_pc p, p_prog p with PIdle, [] => true | _, _ => false end.
+
+(* ---- producer i: qb_log_real_va_ -> qb_log_thread_log_post ---- *)
+Definition prod_step (i : nat) (sh : shared) (gh : ghost) (p : prod) : option (shared * ghost * prod * clabel) :=
+  match p_pc p with
+  | PIdle =>
+      match p_prog p with
+      | [] => None
+      | len :: rest =>
+          let m := {| m_tid := i; m_seq := p_seq p; m_len := len |} in
+          let p' c := {| p_prog := rest; p_seq := S (p_seq p); p_pc := c |} in
+          if inlog sh then Some (sh, add_guarded gh m, p' PIdle, LbLog)          (* compare-and-exchange failed: return *)
+          else if en sh then Some (set_inlog sh true, gh, p' (PLock m), LbLog)
+          else Some (sh, add_skipped gh m, p' PIdle, LbLog)                       (* no enabled target: in_logger set and cleared *)
+      end
+  | PLock m =>
+      if lock_free sh then
+        let used := mem sh + msg_total m in
+        if LOGT_LIMIT <? used then
+          Some (set_lk (set_drop sh (drop sh + 1)) (Some (HProd i)), add_plog gh (m, false, backlog (q sh)),
+                at_ppc p (PUnlock m false), LbLock)
+        else
+          Some (set_lk (set_q (set_mem sh used) (q sh ++ [m])) (Some (HProd i)), add_plog gh (m, true, backlog (q sh)),
+                at_ppc p (PUnlock m true), LbLock)
+      else None
+  | PUnlock m acc =>
+      if acc then Some (set_lk sh None, gh, at_ppc p (PPost m), LbUnlock)
+      else Some (set_inlog (set_lk sh None) false, gh, at_ppc p PIdle, LbUnlock)
+  | PPost m => Some (set_inlog (set_sem sh (sem sh + 1)) false, gh, at_ppc p PIdle, LbPost)
+  end.
+
+(* ---- worker: qb_logt_worker_thread ---- *)
+Definition is_nil {A} (l : list A) : bool := match l with [] => true | _ => false end.
+
+(* rec = first entry; list_del; memory accounting; "messages lost" report; qb_log_thread_log_write *)
+Definition pop_section (sh : shared) (gh : ghost) : shared * ghost * wpc :=
+  match q sh with
+  | [] => (sh, set_err gh EPopEmpty, WUnlock)
+  | m :: r =>
+      let sh1 := set_q (set_mem sh (mem sh - msg_total m)) r in
+      let sh2 := if drop sh =? 0 then sh1 else set_drop sh1 0 in
+      let gh2 := if drop sh =? 0 then gh else add_reported gh (drop sh) in
+      if en sh then (sh2, gh2, WWrite m) else (sh2, add_out gh2 (m, false), WUnlock)
+  end.
+
+Definition worker_step (fixed : bool) (sh : shared) (gh : ghost) (w : wpc) : option (shared * ghost * wpc * clabel) :=
+  match w with
+  | WWait => if 0 <? sem sh then Some (set_sem sh (sem sh - 1), gh, WLock, LbWait) else None
+  | WLock =>
+      if lock_free sh then
+        let sh1 := set_lk sh (Some HWorker) in
+        if fixed then
+          if flag sh && is_nil (q sh) then Some (sh1, gh, WUnlockExit, LbLock)
+          else let '(sh2, gh2, c) := pop_section sh1 gh in Some (sh2, gh2, c, LbLock)
+        else
+          if flag sh then Some (sh1, gh, WGetval, LbLock)
+          else let '(sh2, gh2, c) := pop_section sh1 gh in Some (sh2, gh2, c, LbLock)
+      else None
+  | WGetval =>
+      if sem sh =? 0 then Some (sh, gh, WUnlockExit, LbGetval (sem sh))
+      else let '(sh2, gh2, c) := pop_section sh gh in Some (sh2, gh2, c, LbGetval (sem sh))
+  | WWrite m => Some (sh, add_out gh (m, true), WUnlock, LbWrite)
+  | WUnlock => Some (set_lk sh None, gh, WWait, LbUnlock)
+  | WUnlockExit => Some (set_lk sh None, gh, WExit, LbUnlock)
+  | WExit => Some (sh, gh, WDone, LbExit)
+  | WDone => None
+  end.
+
+(* ---- control thread ---- *)
+Definition in_write (w : wpc) : bool := match w with WWrite _ => true | _ => false end.
+
+(* the target's close callback is invoked (log.c brackets it with in_logger = TRUE / FALSE) *)
+Definition close_cb (sh : shared) (gh : ghost) (w : wpc) : shared * ghost :=
+  let g1 := {| plog := plog gh; out := out gh; reported := reported gh; guarded := guarded gh; skipped := skipped gh;
+               closes := S (closes gh); stopped := stopped gh; err := err gh |} in
+  (set_inlog sh false, if in_write w then set_err g1 ECloseDuringWrite else g1).
+
+Definition nth_done (l : list prod) (k : nat) : bool :=
+  match nth_error l k with Some p => prod_done p | None => true end.
+
+Definition main_step (fixed : bool) (s : cstate) : option (cstate * clabel) :=
+  let sh := c_sh s in let gh := c_gh s in
+  let mk sh' gh' prog' c' := {| c_sh := sh'; c_gh := gh'; c_w := c_w s; c_mprog := prog'; c_m := c'; c_prods := c_prods s |} in
+  match c_m s with
+  | MIdle =>
+      match c_mprog s with
+      | [] => None
+      | MCtl b :: rest =>
+          if closed sh then Some (mk sh gh rest MIdle, LbCtl)                (* -EBADF *)
+          else Some (mk sh gh rest (MCtlLock b), LbCtl)                      (* qb_log_thread_pause *)
+      | MClose :: rest =>
+          if closed sh then Some (mk sh gh rest MIdle, LbCtl)
+          else if fixed then Some (mk sh gh rest MCloseLock, LbCtl)
+          else let '(sh1, gh1) := close_cb sh gh (c_w s) in                   (* as found: no pause *)
+               Some (mk (set_closed (set_en sh1 false) true) gh1 rest MIdle, LbCtl)
+      | MStop :: _ =>
+          match c_prods s with
+          | [] => Some (mk sh gh [] MStopLock, LbCtl)
+          | _ => Some (mk sh gh [] (MJoin 0), LbCtl)
+          end
+      end
+  | MCtlLock b =>
+      if lock_free sh then
+        let sh1 := set_lk sh (Some HMain) in
+        if b then Some (mk (set_en sh1 true) gh (c_mprog s) MUnlock, LbLock)
+        else if en sh then let '(sh2, gh2) := close_cb (set_en sh1 false) gh (c_w s) in
+                           Some (mk sh2 gh2 (c_mprog s) MUnlock, LbLock)
+        else Some (mk sh1 gh (c_mprog s) MUnlock, LbLock)
+      else None
+  | MCloseLock =>
+      if lock_free sh then
+        let '(sh2, gh2) := close_cb (set_lk sh (Some HMain)) gh (c_w s) in
+        Some (mk (set_closed (set_en sh2 false) true) gh2 (c_mprog s) MUnlock, LbLock)
+      else None
+  | MUnlock => Some (mk (set_lk sh None) gh (c_mprog s) MIdle, LbUnlock)
+  | MJoin k =>
+      if nth_done (c_prods s) k then
+        Some (mk sh gh (c_mprog s) (if Nat.ltb (S k) (length (c_prods s)) then MJoin (S k) else MStopLock), LbJoinProd k)
+      else None
+  | MStopLock =>                                   (* qb_log_thread_stop *)
+      if lock_free sh then Some (mk (set_flag (set_lk sh (Some HMain)) true) gh (c_mprog s) MStopUnlock, LbLock) else None
+  | MStopUnlock => Some (mk (set_lk sh None) gh (c_mprog s) MStopPost, LbUnlock)
+  | MStopPost => Some (mk (set_sem sh (sem sh + 1)) gh (c_mprog s) MStopJoin, LbPost)
+  | MStopJoin =>
+      match c_w s with
+      | WDone =>                                   (* joined; lock and semaphores destroyed; targets disabled *)
+          if en sh then let '(sh2, gh2) := close_cb (set_en sh false) gh (c_w s) in
+                        Some (mk sh2 (set_stopped gh2) (c_mprog s) MIdle, LbJoinWorker)
+          else Some (mk sh (set_stopped gh) (c_mprog s) MIdle, LbJoinWorker)
+      | _ => None
+      end
+  end.
+
+Fixpoint upd_prod (l : list prod) (n : nat) (x : prod) : list prod :=
+  match l, n with
+  | [], _ => []
+  | _ :: r, O => x :: r
+  | a :: r, S n' => a :: upd_prod r n' x
+  end.
+
+(* one schedule entry; None = that thread is blocked or finished *)
+Definition cstep (fixed : bool) (s : cstate) (tid : nat) : option (cstate * clabel) :=
+  match tid with
+  | O => main_step fixed s
+  | S O =>
+      match worker_step fixed (c_sh s) (c_gh s) (c_w s) with
+      | Some (sh, gh, w, l) =>
+          Some ({| c_sh := sh; c_gh := gh; c_w := w; c_mprog := c_mprog s; c_m := c_m s; c_prods := c_prods s |}, l)
+      | None => None
+      end
+  | S (S i) =>
+      match nth_error (c_prods s) i with
+      | None => None
+      | Some p =>
+          match prod_step i (c_sh s) (c_gh s) p with
+          | Some (sh, gh, p', l) =>
+              Some ({| c_sh := sh; c_gh := gh; c_w := c_w s; c_mprog := c_mprog s; c_m := c_m s;
+                       c_prods := upd_prod (c_prods s) i p' |}, l)
+          | None => None
+          end
+      end
+  end.
+
+Definition cstep' (fixed : bool) (s : cstate) (tid : nat) : cstate :=
+  match cstep fixed s tid with Some (s', _) => s' | None => s end.
+
+Definition exec (fixed : bool) (sched : list nat) (s : cstate) : cstate := fold_left (cstep' fixed) sched s.
+
+(* ---- observables the theorems speak about ---- *)
+Definition accepted (g : ghost) : list msg := map (fun x => fst (fst x)) (filter (fun x => snd (fst x)) (plog g)).
+Definition dropped (g : ghost) : list msg := map (fun x => fst (fst x)) (filter (fun x => negb (snd (fst x))) (plog g)).
+Definition popped (g : ghost) : list msg := map fst (out g).
+Definition written (g : ghost) : list msg := map fst (filter snd (out g)).
+Definition inflight (w : wpc) : list msg := match w with WWrite m => [m] | _ => [] end.
+Definition c_error (s : cstate) : bool := match err (c_gh s) with Some _ => true | None => false end.
+Definition all_done (s : cstate) : bool :=
+  forallb prod_done (c_prods s) && match c_m s, c_mprog s with MIdle, [] => true | _, _ => false end &&
+  match c_w s with WDone => true | _ => false end.
